@@ -592,6 +592,15 @@ def rule_r7(ctx):
             bad = _projection_in(r.value) or next((tainted[x.id] for x in ast.walk(r.value) if isinstance(x, ast.Name) and x.id in tainted), None)
             if bad is not None:
                 break
+        if bad is None:
+            # … nor chosen by one: a branch that decides what to return by looking at a sub-term (`expr.as_numer_denom()[1] == 1 →
+            # already whole`) judges the top-level shape only - Mod, Max, Abs of a fraction have denominator 1 and are not whole
+            for iff in (x for x in own_nodes(f.node) if isinstance(x, (ast.If, ast.IfExp, ast.While))):
+                t = iff.test
+                src = _projection_in(t) or next((tainted[x.id] for x in ast.walk(t) if isinstance(x, ast.Name) and x.id in tainted), None)
+                if src is not None and (isinstance(iff, ast.IfExp) or any(isinstance(y, ast.Return) for b in iff.body + iff.orelse for y in ast.walk(b))):
+                    bad = src
+                    break
         ctx.check("R7", f"{f.local}: the result is built from whole SymPy expressions", bad is None, f, bad if bad is not None else f.node,
                   f"{f.local} returns a value built from `{short(norm(bad)) if bad is not None else ''}` - a sub-term of a SymPy expression: the returned dimension "
                   "is a different function of the symbols (e.g. one branch of a Piecewise is singular where another branch applied), so "
